@@ -4,6 +4,7 @@
 -/
 import BufrModel.Lang.MdQuery
 import BufrModel.Gen.PyMdquery
+import BufrModel.Lemmas.MdQuerySrc
 namespace Bufr.MdQuery
 open PyGen.mdquery
 
@@ -25,5 +26,125 @@ theorem C17_src_const_indicator_accepted (e : List Char) (rest : List Char)
 example : ∃ e c rest, strip e = c :: rest ∧ [c] ≠ METADATA_QUERY_INDICATOR_CHAR := ⟨['x'], 'x', [], by decide, by decide⟩
 example : ∃ e rest, strip e = METADATA_QUERY_INDICATOR_CHAR ++ rest ∧ rest.contains '.' = false :=
   ⟨['%', 'a'], ['a'], by decide, by decide⟩
+
+/-! ### `MetadataExprParser.parse` (regenerated into `Gen/PyMdquery.lean`) -/
+
+open Bufr.MdQuerySrc
+
+/-- the model's error families: the library's own exception class, and everything else -/
+def excToErr : Py.Exc → Err
+  | .raised cls => if cls = "MetadataExprParsingError" then .mdExpr else .other
+  | _ => .other
+
+/-- the result of the generated function in the vocabulary of the model -/
+def ofGen : Except Py.Exc (Option Int × List Char) → Except Err Expr
+  | .ok (s, n) => .ok { sec := s, name := n }
+  | .error x => .error (excToErr x)
+
+/-- the generated function, with the Python exceptions spelled out -/
+def parseExact (e : List Char) : Except Py.Exc (Option Int × List Char) :=
+  match strip e with
+  | [] => .error .indexError                                   -- `metadata_expr[0]` on the empty string
+  | c :: rest =>
+    if c ≠ '%' then .error (.raised "MetadataExprParsingError")
+    else if rest.contains '.' then
+      match splitDot rest with
+      | [a, b] =>
+        match parseInt a with
+        | none => .error (.raised "MetadataExprParsingError")  -- `except ValueError` around `int()`
+        | some k => .ok (some k, b)
+      | _ => .error .valueError                                 -- tuple unpacking of other than two parts
+    else .ok (none, rest)
+
+theorem ofGen_parseExact (e : List Char) : ofGen (parseExact e) = parse e := by
+  unfold parseExact parse
+  cases strip e with
+  | nil => rfl
+  | cons c rest =>
+    dsimp only
+    by_cases hc : c ≠ '%'
+    · rw [if_pos hc, if_pos hc]; rfl
+    · rw [if_neg hc, if_neg hc]
+      by_cases hd : rest.contains '.' = true
+      · rw [if_pos hd, if_pos hd]
+        generalize splitDot rest = ps
+        match ps with
+        | [a, b] => dsimp only; cases parseInt a <;> rfl
+        | [] => rfl
+        | [_] => rfl
+        | _ :: _ :: _ :: _ => rfl
+      · rw [if_neg hd, if_neg hd]; rfl
+
+/-- **`MetadataExprParser.parse` as translated from the source is the model's `parse`**, result for result
+    and exception for exception (`IndexError` for an all-blank expression, `ValueError` when the part after
+    `%` does not split into exactly two pieces at the dots, `MetadataExprParsingError` otherwise), for every
+    expression whose decimal digits are ASCII digits and that has at most 4300 characters.  Both hypotheses
+    are about `int()`: CPython accepts every Unicode decimal digit and refuses more than 4300 digits; the
+    model does neither (examples below). -/
+theorem C17_src_parse_exact (e : List Char) (hd : AsciiDigitsOnly e) (hl : e.length ≤ 4300) :
+    MetadataExprParser.parse {} e = parseExact e := by
+  unfold MetadataExprParser.parse parseExact
+  simp only [strip_eq]
+  have hlen := length_strip_le e
+  have hmem := mem_strip e
+  cases hs : strip e with
+  | nil => rfl
+  | cons c rest =>
+    rw [hs] at hlen hmem
+    have h0 : Py.strGetItemNat (c :: rest) 0 = .ok [c] := rfl
+    by_cases hc : c = '%'
+    · subst hc
+      have e2 : List.elem '.' ('%' :: rest) = rest.contains '.' := by
+        simp [List.elem]
+      by_cases hdot : rest.contains '.' = true
+      · simp only [h0, bind, Except.bind, pure, Except.pure, METADATA_QUERY_INDICATOR_CHAR, decide_true, Bool.not_true,
+          Bool.false_eq_true, if_false, e2, hdot, if_true, List.drop_one, List.tail_cons, splitChar_eq,
+          ne_eq, not_true_eq_false]
+        have hp := splitDot_pieces rest
+        generalize splitDot rest = ps at hp
+        match ps with
+        | [a, b] =>
+          have ha := hp a (by simp)
+          have hda : AsciiDigitsOnly a := fun x hx => hd x (hmem x (List.mem_cons_of_mem _ (ha.2 x hx)))
+          have hla : a.length ≤ 4300 := by
+            have := ha.1; simp only [List.length_cons] at hlen; omega
+          simp only [Py.unpack2, intOfStr_eq a hda hla]
+          cases parseInt a <;> rfl
+        | [] => rfl
+        | [_] => rfl
+        | _ :: _ :: _ :: _ => rfl
+      · simp only [h0, bind, Except.bind, pure, Except.pure, METADATA_QUERY_INDICATOR_CHAR, decide_true, Bool.not_true,
+          Bool.false_eq_true, if_false, e2, hdot, List.drop_one, List.tail_cons, ne_eq, not_true_eq_false]
+    · have hne : ([c] = ['%']) = False := by simp [hc]
+      simp only [h0, bind, Except.bind, pure, Except.pure, METADATA_QUERY_INDICATOR_CHAR, hne, decide_false,
+        Bool.not_false, if_true, ne_eq, hc, not_false_eq_true]
+
+/-- the same in the vocabulary of the model (`Err.mdExpr` = the library's exception, `Err.other` = the rest) -/
+theorem C17_src_parse (e : List Char) (hd : AsciiDigitsOnly e) (hl : e.length ≤ 4300) :
+    ofGen (MetadataExprParser.parse {} e) = parse e := by
+  rw [C17_src_parse_exact e hd hl, ofGen_parseExact]
+
+/-- the hypotheses are satisfiable, by every ASCII string of up to 4300 characters in particular -/
+example : AsciiDigitsOnly "% 1_0 .name".toList ∧ "% 1_0 .name".toList.length ≤ 4300 := by decide
+example : MetadataExprParser.parse {} "% 1_0 .name".toList = .ok (some 10, "name".toList) := by decide
+
+/-- outside the first hypothesis: `%١.x` (ARABIC-INDIC DIGIT ONE).  Python's `int('١')` is 1, so the real
+    parser returns `(1, 'x')` (checked on the real function); the model, whose digits are the ASCII ones,
+    answers `MetadataExprParsingError`. -/
+example : MetadataExprParser.parse {} ['%', Char.ofNat 0x661, '.', 'x'] = .ok (some 1, ['x']) ∧
+    parse ['%', Char.ofNat 0x661, '.', 'x'] = .error .mdExpr ∧
+    ¬ AsciiDigitsOnly ['%', Char.ofNat 0x661, '.', 'x'] := by decide
+
+/- outside the second hypothesis: `'%' + '1' * 4301 + '.x'`.  CPython (>= 3.11, default
+   `sys.get_int_max_str_digits() == 4300`) raises ValueError in `int()`, so the real parser raises
+   `MetadataExprParsingError` (checked on the real function; so does `Py.Small.intOfStr`, whose digit count
+   exceeds `intMaxStrDigits`); the model has no such limit and returns the 4301-digit section index.  (No
+   `example`: evaluating the 4301-character input exceeds the kernel's recursion depth.) -/
+
+/-- `int()` and `strip()` disagree about U+001C..U+001F: `'%\x1c1.x'` is refused by the real parser
+    (`MetadataExprParsingError`: `int('\x1c1')` is a ValueError) although `'\x1c1'.strip() == '1'`; the
+    model agrees (this is inside the domain of `C17_src_parse`) -/
+example : MetadataExprParser.parse {} ['%', Char.ofNat 0x1c, '1', '.', 'x'] = .error (.raised "MetadataExprParsingError") ∧
+    parse ['%', Char.ofNat 0x1c, '1', '.', 'x'] = .error .mdExpr := by decide
 
 end Bufr.MdQuery
